@@ -12,6 +12,7 @@ import (
 	"encoding/hex"
 	"errors"
 	"math/big"
+	"strconv"
 	"strings"
 )
 
@@ -360,4 +361,41 @@ func KSUnescapeText(s string) []byte {
 		}
 	}
 	return out
+}
+
+// KSRSAUnbalanced returns a deterministic RSA key (e = 65537) of exactly `bits` modulus bits whose two primes have
+// DIFFERENT byte lengths (bits/2+64 and bits/2-64 bits): pLonger chooses which of p, q is the long one. Encoders that
+// size one CRT value by the other prime's length only show on such keys; generated keys never have this shape.
+func KSRSAUnbalanced(bits int, pLonger bool) *KSRSA {
+	e := big.NewInt(65537)
+	one := big.NewInt(1)
+	next := func(label string, b int) *big.Int {
+		v := new(big.Int).SetBytes(KeyBytes(label, (b+7)/8))
+		v.SetBit(v, b-1, 1)
+		v.SetBit(v, b-2, 1) // both top bits set: the product of a (b1)-bit and a (b2)-bit prime has b1+b2 bits
+		for i := v.BitLen() - 1; i >= b; i-- {
+			v.SetBit(v, i, 0)
+		}
+		v.SetBit(v, 0, 1)
+		for {
+			if v.ProbablyPrime(20) && new(big.Int).GCD(nil, nil, e, new(big.Int).Sub(v, one)).Cmp(one) == 0 {
+				return v
+			}
+			v.Add(v, big.NewInt(2))
+		}
+	}
+	long, short := next("rsa-unbalanced-long-"+strconv.Itoa(bits), bits/2+64), next("rsa-unbalanced-short-"+strconv.Itoa(bits), bits/2-64)
+	p, q := long, short
+	if !pLonger {
+		p, q = short, long
+	}
+	n := new(big.Int).Mul(p, q)
+	if n.BitLen() != bits {
+		panic("ref: unbalanced RSA modulus has the wrong size")
+	}
+	pm, qm := new(big.Int).Sub(p, one), new(big.Int).Sub(q, one)
+	g := new(big.Int).GCD(nil, nil, pm, qm)
+	lcm := new(big.Int).Div(new(big.Int).Mul(pm, qm), g)
+	d := new(big.Int).ModInverse(e, lcm)
+	return ksRSAFrom(bits, 65537, n, d, p, q)
 }
